@@ -93,7 +93,17 @@ def run_cases(ck, res, n_cases, n_interval):
         probes = {s: (Probe.affine(len(dep), dy(r, -2, 2), [dy(r, -2, 2) or 1.0 for _ in dep]) if ci % 4 == 3 else Probe(len(dep), r, nterms=r.randint(1, 3)))
                   for s, dep in syms}
         fields = [probes[s].torch(*[X[l] for l in dep]) for s, dep in syms]
-        inp = {'op': name, 'fields': {s: probes[s].describe() for s, _ in syms}, 'points': pts}
+        bare = {}
+        if ci % 6 == 5:
+            # some components are a coordinate column ITSELF (the leaf tensor, no autograd history): the position field
+            # (x, y, z) has divergence 3; "no history" does not mean "constant"
+            for k, (s, dep) in enumerate(syms):
+                if dep and (k == 0 or r.random() < 0.5):
+                    j = r.randrange(len(dep))
+                    probes[s] = Probe.affine(len(dep), 0.0, [1.0 if q == j else 0.0 for q in range(len(dep))])
+                    fields[k] = X[dep[j]]
+                    bare[s] = dep[j]
+        inp = {'op': name, 'fields': {s: probes[s].describe() for s, _ in syms}, 'points': pts, 'bare_leaf_components': bare}
         try:
             out = call_real(O, name, fields, [X[l] for l in leaves])
         except Exception as e:
